@@ -86,6 +86,12 @@ fn run_case(plan: &Plan) -> Judged {
 	// skewed key universe
 	let nkeys = rng.range(8, 200) as usize;
 	let prefix_len = rng.range(0, 40) as usize;
+	// one case in 6: a third of the keys are around or beyond a quarter page up to larger than a
+	// page (keys that spill into overflow chains, also when they become separators)
+	let big_keys = rng.chance(1, 6);
+	if big_keys {
+		j.count("big_key_cases", 1);
+	}
 	let mut ukeys: Vec<Vec<u8>> = (0..nkeys)
 		.map(|i| {
 			let mut k = vec![b'p'; prefix_len];
@@ -93,6 +99,11 @@ fn run_case(plan: &Plan) -> Judged {
 				0 => k.extend_from_slice(format!("{:03}", i).as_bytes()),
 				1 => k.extend_from_slice(&[(i % 251) as u8, 0x00, (i / 251) as u8]),
 				2 => k.extend_from_slice(&[0xff, (i % 256) as u8, 0xff]),
+				_ if big_keys && rng.chance(1, 2) => {
+					let extra = *rng.pick(&[900usize, 990, 995, 1000, 1010, 1500, 2500, 5000]) + rng.below(8) as usize;
+					k.extend_from_slice(format!("{:05}", i).as_bytes());
+					k.extend((0..extra).map(|x| b'a' + ((x * 7 + i * 13) % 23) as u8)); // tails differ from key to key
+				}
 				_ => {
 					let extra = rng.range(1, 300) as usize;
 					k.extend_from_slice(format!("{:05}", i).as_bytes());
